@@ -13,7 +13,7 @@ git -C /repo worktree add --detach "$W/repo" HEAD >/dev/null 2>&1
 (cd /repo && git ls-files --others --exclude-standard | grep 'verif_hooks' || true) | while read f; do mkdir -p "$W/repo/$(dirname $f)"; cp "/repo/$f" "$W/repo/$f"; done
 git -C "$W/repo" apply "$SD/patch.diff"
 mkdir -p "$W/verif"
-rsync -a --exclude out/replay --exclude evidence /verif/ "$W/verif/"
+rsync -a --exclude out --exclude evidence /verif/ "$W/verif/" 2>/dev/null || true
 cd "$W/verif"
 set +e
 GALAXY_REPO="$W/repo" ./check "$PID" --tier "$TIER" 2>"$W/stderr.log"
